@@ -193,7 +193,8 @@ def preprocessC (src : Text) : Outcome Text :=
 
 /-! ## `check_nesting_depth` (on the UTF-8 bytes) -/
 
-def MAX_NESTING_DEPTH : Nat := 16
+/-- regenerated from `pest_parser.rs` on every check -/
+def MAX_NESTING_DEPTH : Nat := Generated.ParserLimits.MAX_NESTING_DEPTH
 
 def utf8 (t : Text) : List UInt8 := t.flatMap String.utf8EncodeChar
 
@@ -410,6 +411,81 @@ def timestampNs (year : Int) (month day : Nat) (tod tzHours : Int) : Outcome Int
   | _, .panic w => .panic w
   | .err k, _ => .err k
   | _, .err k => .err k
+
+/-! ### `helpers::parse_timestamp`: the splitting of the literal's text -/
+
+/-- `str::split(c)` -/
+def splitChar (c : Char) : Text → List Char → List Text
+  | [], acc => [acc.reverse]
+  | x :: xs, acc => if x = c then acc.reverse :: splitChar c xs [] else splitChar c xs (x :: acc)
+
+/-- text behind the first `c` (`&s[s.find(c)? + 1..]`) -/
+def afterChar (c : Char) : Text → Option Text
+  | [] => none
+  | x :: xs => if x = c then some xs else afterChar c xs
+
+/-- `str::parse::<u32>()` / `parse::<i32>()` / `parse::<i64>()` of the pieces: `parseI64` restricted to the type's range -/
+def parseRange (lo hi : Int) (t : Text) : Option Int :=
+  match parseI64 t with
+  | some v => if lo ≤ v ∧ v ≤ hi then some v else none
+  | none => none
+
+def parseU32 (t : Text) : Option Nat := (parseRange 0 4294967295 t).map Int.toNat
+def parseI32 (t : Text) : Option Int := parseRange (-2147483648) 2147483647 t
+
+/-- `time_str.trim_end_matches('Z')` -/
+def trimEndZ (t : Text) : Text := (t.reverse.dropWhile (· = 'Z')).reverse
+
+/-- the time of day `HH:MM[:SS]` in seconds -/
+def timeOfDay (timeStr : Text) : Int :=
+  let timeOnly := ((trimEndZ timeStr).takeWhile (· ≠ '+')).takeWhile (· ≠ '-')
+  match splitChar ':' timeOnly [] with
+  | h :: m :: rest =>
+    (parseI64 h).getD 0 * 3600 + (parseI64 m).getD 0 * 60 +
+      (match rest with | s :: _ => (parseI64 s).getD 0 | [] => 0)
+  | _ => 0
+
+/-- hours of a `+HH:MM` / `-HH:MM` suffix, signed as they enter the result (`seconds -= …` for `+`);
+`time_str[1..]` is the one slicing that can fail -/
+def tzSeconds (timeStr : Text) : Outcome Int :=
+  let hoursOf (tz : Text) : Int := if tz.contains ':' then (parseI64 (tz.takeWhile (· ≠ ':'))).getD 0 else 0
+  match afterChar '+' timeStr with
+  | some tz => .ok (-(hoursOf tz * 3600))
+  | none =>
+    match byteDrop 1 timeStr with
+    | none => .panic "byte index 1 is out of bounds or not a char boundary"
+    | some rest =>
+      match afterChar '-' rest with
+      | some tz => .ok (hoursOf tz * 3600)
+      | none => .ok 0
+
+/-- `parse_timestamp` on the text of a literal (after the fix) -/
+def timestampText (lit : Text) : Outcome Int :=
+  let s := match lit with | '@' :: r => r | r => r
+  let datePart := s.takeWhile (· ≠ 'T')
+  let timePart := afterChar 'T' s
+  match splitChar '-' datePart [] with
+  | [y, m, d] =>
+    let year := (parseI32 y).getD 1970
+    let month := (parseU32 m).getD 1
+    let day := (parseU32 d).getD 1
+    match timePart with
+    | none => timestampNs year month day 0 0
+    | some ts =>
+      match tzSeconds ts with
+      | .ok tz =>
+        -- `timestampNs` takes the zone as signed hours; here the seconds are already signed
+        timestampNs year month day (timeOfDay ts + tz) 0
+      | .err k => .err k
+      | .panic w => .panic w
+  | _ => .ok 0
+
+/-- the time part of a literal, if any, starts with a one-byte character (the grammar: a digit) -/
+def timePartOk (lit : Text) : Bool :=
+  match afterChar 'T' (match lit with | '@' :: r => r | r => r) with
+  | none => true
+  | some [] => false
+  | some (c :: _) => c.utf8Size == 1
 
 /-! ## the modelled prefix of `parse_inner` and the property verdict on reported locations -/
 
